@@ -13,14 +13,16 @@ LEVEL = "exploration"
 WORKERS = {"quick": 8, "thorough": 16}
 BUDGET = {"quick": 60, "thorough": 420}
 MIN_NONTRIVIAL = {"quick": 3000, "thorough": 40000}
-REQUIRED_HOOKS = ["parse", "tree_dump", "corpus"]
+REQUIRED_HOOKS = ["parse", "tree_dump", "corpus", "lookalike-pair"]
 RULE = (
     "Intended trees are built by the harness (operators: 14 binary, ! and -, ?:, .f, .f(), .f(x), [i], g(x), g(x,y), list, map, message construction, has()), "
     "printed (a) with the minimal parentheses CEL's precedence table requires, (b) fully parenthesised, (c) with random whitespace and // comments, and parsed "
     "with CELParser; the normalised parse (single-child chains and parenthesis nodes collapsed, -N literal == neg(N)) must equal the intended tree in all three "
     "cases, and parse(tree_dump(parse(s))) must equal parse(s). Every tree with exactly 2 operator nodes (all outer-operator x operand-slot x inner-operator "
     "pairs) is enumerated, triples are enumerated in the thorough tier and sampled in the quick tier, plus random trees up to 30 nodes with literal leaves of every "
-    "token kind (true/false/null included), and every corpus expression for the round trip. distinct_nontrivial = distinct trees with >= 2 operators."
+    "token kind (true/false/null included), and every corpus expression for the round trip; look-alike pairs (two different expressions whose texts coincide after "
+    "collapsing whitespace / turning a comment's newline into a blank / folding case / normalising Unicode / stripping blanks inside a literal) parsed one after the "
+    "other in one process, each against its own intended tree. distinct_nontrivial = distinct trees with >= 2 operators."
 )
 ASSUMPTIONS = [
     "the harness's own precedence table (CEL langdef: ?: lowest and right-associative, ||, &&, relations, + -, * / %, unary, member) is the specification",
@@ -312,6 +314,61 @@ def rand_tree(rnd, nops, lits) -> Node:
     return mk(op, kids)
 
 
+def raw_str(txt, kind="STRING_LIT"):
+    return Node("raw", None, txt, "U", P_PRIMARY, "literal:" + kind)
+
+
+def check_lookalikes(env: Env, a: Node, b: Node, rnd):
+    """Pairs of DIFFERENT expressions whose texts coincide after a harmless-looking normalisation (runs of whitespace collapsed,
+    newline = blank, case folded, Unicode normalised, surrounding blanks stripped): each must parse to its own tree, whichever
+    of the two this process parsed first."""
+    acc = env.acc
+    try:
+        A, B = lang.to_text(a), lang.to_text(b)
+    except ValueError:
+        return
+    tail = rnd.choice(["tail", "c + d", "x ? y : z", "'q'"])
+    ws = rnd.choice([" ", "  ", "\t"])
+
+    def g(lit, node, kind="STRING_LIT"):
+        return Node("call", None, "g", raw_str(lit, kind), node)
+
+    pairs = [
+        ("comment-newline", f"({A}) // {tail} + ({B})", a, f"({A}) // {tail}\n + ({B})", Node("bin", None, "+", a, b)),
+        ("comment-newline", f"({A}) //{tail}{ws}&& ({B})", a, f"({A}) //{tail}\n{ws}&& ({B})", Node("bin", None, "&&", a, b)),
+        ("string-blanks", f'g("x  y", {A})', g('"x  y"', a), f'g("x y", {A})', g('"x y"', a)),
+        ("string-newline", f"g('''x\ny''', {A})", g("'''x\ny'''", a, "MLSTRING_LIT"), f"g('''x y''', {A})", g("'''x y'''", a, "MLSTRING_LIT")),
+        ("identifier-case", f"abc && ({A})", Node("bin", None, "&&", Node("var", None, "abc"), a), f"ABC && ({A})", Node("bin", None, "&&", Node("var", None, "ABC"), a)),
+        ("string-case", f"g('ab', {A})", g("'ab'", a), f"g('aB', {A})", g("'aB'", a)),
+        ("unicode-normal-form", "g('\u00e9', " + A + ")", g("'\u00e9'", a), "g('e\u0301', " + A + ")", g("'e\u0301'", a)),
+        ("quote-style", f"g('ab', {B})", g("'ab'", b), f'g("ab", {B})', g('"ab"', b)),
+        ("surrounding-blanks-in-literal", f"g(' ab ', {B})", g("' ab '", b), f"g('ab', {B})", g("'ab'", b)),
+    ]
+    if "\n" in B:
+        pairs = pairs[2:]  # a newline inside B would end the comment in the middle of B
+    kind, t1, n1, t2, n2 = rnd.choice(pairs)
+    order = [(t1, n1), (t2, n2)]
+    if rnd.random() < 0.5:
+        order.reverse()
+    acc.hook("lookalike-pair")
+    for pos, (text, node) in enumerate(order):
+        want = norm(larkconv.sexpr(node))
+        try:
+            _, got = env.parse_sx(text)
+            why = "" if got == want else f"parsed as {core.jkey(got)[:160]} instead of {core.jkey(want)[:160]}"
+        except Exception as ex:
+            got, why = None, f"{type(ex).__name__}: {core._msg(ex)[:80]}"
+        acc.cell("lookalike", kind, env.tc, "first" if pos == 0 else "second", "ok" if not why else "mismatch")
+        if why:
+            acc.violation(
+                f"lookalike {kind} {'first' if pos == 0 else 'second'}-of-pair",
+                f"[{env.tc}] {text[:140]!r} {why} (the look-alike text {order[1 - pos][0][:80]!r} is parsed {'after' if pos == 0 else 'before'} it in the same process)",
+                {"kind": "lookalike", "texts": [order[0][0], order[1][0]], "wants": [norm(larkconv.sexpr(order[0][1])), norm(larkconv.sexpr(order[1][1]))], "tree_class": env.tc},
+            )
+            return
+    acc.nt(["lookalike", kind, t1])
+
+
 HAND = [
     "--a", "- -a", "!!a", "!-a", "-!a", "- - 1", "--1", "a - -1", "a -1", "a-1", "1-1", "1 - 1", "2 * -1", "-1 * 2", "-a.f", "-a[0]", "-a.f(b)[c]", "!a.f()", "!a in b + c * d",
     "a == b == c", "a < b < c", "a in b in c", "a ? b : c ? d : e", "(a ? b : c) ? d : e", "a ? (b ? c : d) : e", "a || b ? c : d", "a ? b || c : d && e", "a ? b : c || d",
@@ -383,7 +440,12 @@ def run(ctx):
         t = rand_tree(rnd, rnd.randint(1, 12), rnd.choice([0.0, 0.3, 0.8]))
         if lang.size(t) > 30:
             continue
-        check_tree(env, t, rnd, "random")
+        t_ok = check_tree(env, t, rnd, "random")
+        if j % 3 == 0 and t_ok:
+            # only trees that parse as intended on their own (a tree that hits a listed finding is reported by check_tree)
+            t2 = rand_tree(rnd, rnd.randint(0, 3), 0.3)
+            if quick_ok(env, t2, "minimal", rnd):
+                check_lookalikes(env, t, t2, rnd)
         if j % 1999 == 0:
             acc.sample({"text": lang.to_text(t), "tree": norm(larkconv.sexpr(t))})
     core.celpy().CELParser.CEL_PARSER = None
@@ -416,6 +478,16 @@ def check_text(env: Env, text: str, origin: str):
 def replay(case):
     acc = core.Acc()
     env = Env(acc, case.get("tree_class", "TranspilerTree"))
+    if case["kind"] == "lookalike":
+        lines, ok = [], True
+        for text, want in zip(case["texts"], case["wants"]):
+            try:
+                got = env.parse_sx(text)[1]
+            except Exception as ex:
+                got = type(ex).__name__
+            ok = ok and got == want
+            lines.append(f"{text!r} -> {core.jkey(got)[:200]} (intended {core.jkey(want)[:200]})")
+        return ok, "\n".join(lines)
     text = case["text"]
     if case["kind"] in ("roundtrip", "text"):
         check_text(env, text, "replay")
